@@ -47,6 +47,7 @@ Rd(k) == [op |-> "RD", k |-> k]
 Rl(k) == [op |-> "RL", k |-> k]
 Ja(k) == [op |-> "JA", k |-> k]
 Jar(k, r) == [op |-> "JA", k |-> k, r |-> r]     \* the joined reader is read with Read calls of r bytes
+Rc == [op |-> "RA", k |-> 1]                        \* io.ReadAll semantics, executed with io.Copy (an io.WriterTo of the reader is used if there is one)
 Rdo(k) == [op |-> "RDO", k |-> k]
 Swd(k) == [op |-> "SWD", k |-> k]
 
